@@ -251,22 +251,40 @@ class EvaluateRealDouble : public EvaluateDouble<RealDouble>
     RCP<const Basic> floor(const Basic &x) const override
     {
         SYMENGINE_ASSERT(is_a<RealDouble>(x))
+        double d = down_cast<const RealDouble &>(x).i;
+        if (not std::isfinite(d)) {
+            // +-inf and nan have no integer value (and mpz_set_d would
+            // raise SIGFPE): they are their own floor/ceiling/truncation
+            return x.rcp_from_this();
+        }
         integer_class i;
-        mp_set_d(i, std::floor(down_cast<const RealDouble &>(x).i));
+        mp_set_d(i, std::floor(d));
         return integer(std::move(i));
     }
     RCP<const Basic> ceiling(const Basic &x) const override
     {
         SYMENGINE_ASSERT(is_a<RealDouble>(x))
+        double d = down_cast<const RealDouble &>(x).i;
+        if (not std::isfinite(d)) {
+            // +-inf and nan have no integer value (and mpz_set_d would
+            // raise SIGFPE): they are their own floor/ceiling/truncation
+            return x.rcp_from_this();
+        }
         integer_class i;
-        mp_set_d(i, std::ceil(down_cast<const RealDouble &>(x).i));
+        mp_set_d(i, std::ceil(d));
         return integer(std::move(i));
     }
     RCP<const Basic> truncate(const Basic &x) const override
     {
         SYMENGINE_ASSERT(is_a<RealDouble>(x))
+        double d = down_cast<const RealDouble &>(x).i;
+        if (not std::isfinite(d)) {
+            // +-inf and nan have no integer value (and mpz_set_d would
+            // raise SIGFPE): they are their own floor/ceiling/truncation
+            return x.rcp_from_this();
+        }
         integer_class i;
-        mp_set_d(i, std::trunc(down_cast<const RealDouble &>(x).i));
+        mp_set_d(i, std::trunc(d));
         return integer(std::move(i));
     }
     RCP<const Basic> erf(const Basic &x) const override
@@ -336,27 +354,48 @@ class EvaluateComplexDouble : public EvaluateDouble<ComplexDouble>
     RCP<const Basic> floor(const Basic &x) const override
     {
         SYMENGINE_ASSERT(is_a<ComplexDouble>(x))
+        const std::complex<double> &c = down_cast<const ComplexDouble &>(x).i;
+        if (not(std::isfinite(c.real()) and std::isfinite(c.imag()))) {
+            // a non-finite part has no integer value (and mpz_set_d would
+            // raise SIGFPE): stay in floating point
+            return complex_double(std::complex<double>(std::floor(c.real()),
+                                                       std::floor(c.imag())));
+        }
         integer_class re, im;
-        mp_set_d(re, std::floor(down_cast<const ComplexDouble &>(x).i.real()));
-        mp_set_d(im, std::floor(down_cast<const ComplexDouble &>(x).i.imag()));
+        mp_set_d(re, std::floor(c.real()));
+        mp_set_d(im, std::floor(c.imag()));
         return Complex::from_two_nums(*integer(std::move(re)),
                                       *integer(std::move(im)));
     }
     RCP<const Basic> ceiling(const Basic &x) const override
     {
         SYMENGINE_ASSERT(is_a<ComplexDouble>(x))
+        const std::complex<double> &c = down_cast<const ComplexDouble &>(x).i;
+        if (not(std::isfinite(c.real()) and std::isfinite(c.imag()))) {
+            // a non-finite part has no integer value (and mpz_set_d would
+            // raise SIGFPE): stay in floating point
+            return complex_double(std::complex<double>(std::ceil(c.real()),
+                                                       std::ceil(c.imag())));
+        }
         integer_class re, im;
-        mp_set_d(re, std::ceil(down_cast<const ComplexDouble &>(x).i.real()));
-        mp_set_d(im, std::ceil(down_cast<const ComplexDouble &>(x).i.imag()));
+        mp_set_d(re, std::ceil(c.real()));
+        mp_set_d(im, std::ceil(c.imag()));
         return Complex::from_two_nums(*integer(std::move(re)),
                                       *integer(std::move(im)));
     }
     RCP<const Basic> truncate(const Basic &x) const override
     {
         SYMENGINE_ASSERT(is_a<ComplexDouble>(x))
+        const std::complex<double> &c = down_cast<const ComplexDouble &>(x).i;
+        if (not(std::isfinite(c.real()) and std::isfinite(c.imag()))) {
+            // a non-finite part has no integer value (and mpz_set_d would
+            // raise SIGFPE): stay in floating point
+            return complex_double(std::complex<double>(std::trunc(c.real()),
+                                                       std::trunc(c.imag())));
+        }
         integer_class re, im;
-        mp_set_d(re, std::trunc(down_cast<const ComplexDouble &>(x).i.real()));
-        mp_set_d(im, std::trunc(down_cast<const ComplexDouble &>(x).i.imag()));
+        mp_set_d(re, std::trunc(c.real()));
+        mp_set_d(im, std::trunc(c.imag()));
         return Complex::from_two_nums(*integer(std::move(re)),
                                       *integer(std::move(im)));
     }
